@@ -30,7 +30,8 @@ def sh(cmd, cwd=None, env=None, timeout=3000):
 
 def main():
     name, seed = sys.argv[1], os.path.abspath(sys.argv[2])
-    checks = sys.argv[3].split(",") if len(sys.argv) > 3 else ALL
+    pos = [a for a in sys.argv[3:] if not a.startswith("--")]
+    checks = pos[0].split(",") if pos else ALL
     skip_tests = "--skip-tests" in sys.argv
     d = tempfile.mkdtemp(prefix="xtbenign-")
     copy = os.path.join(d, "repo")
